@@ -50,11 +50,23 @@ func runC17(w *World, r *Report) {
 	}
 	info := nb.Pkg.TypesInfo
 	npos := w.Pos(nb.Decl.Pos())
+	// the builder and the same-package functions it delegates to in tail position (return f(…) with the
+	// same (field, error) results): a split into a generic wrapper and a non-generic core is one builder
+	parts := builderParts(w, nb)
+	isPart := map[*types.Func]bool{}
+	for _, p := range parts {
+		isPart[p.Obj] = true
+	}
+	inspectParts := func(f func(ast.Node) bool) {
+		for _, p := range parts {
+			ast.Inspect(p.Decl.Body, f)
+		}
+	}
 
 	// ---------------------------------------------------------------- nopanic
 	// helpers called from the builder that produce the ByteArrayField payloads
 	helpers := map[*FuncInfo]bool{}
-	ast.Inspect(nb.Decl.Body, func(n ast.Node) bool {
+	inspectParts(func(n ast.Node) bool {
 		if c, ok := n.(*ast.CallExpr); ok {
 			if fn, ok := typeutil.Callee(info, c).(*types.Func); ok {
 				if fi := w.FuncOf(fn); fi != nil && fi.Recv == nil {
@@ -215,7 +227,7 @@ func runC17(w *World, r *Report) {
 	// the variables handed to the width-copy helper as mask and as value
 	{
 		var maskObj, valueObj types.Object
-		ast.Inspect(nb.Decl.Body, func(n ast.Node) bool {
+		inspectParts(func(n ast.Node) bool {
 			as, ok := n.(*ast.AssignStmt)
 			if !ok || len(as.Rhs) != 1 {
 				return true
@@ -236,7 +248,7 @@ func runC17(w *World, r *Report) {
 			// which one feeds field.Mask? the result variable later assigned to a selector named Mask
 			res := identObj(info, as.Lhs[0])
 			isMask := false
-			ast.Inspect(nb.Decl.Body, func(m ast.Node) bool {
+			inspectParts(func(m ast.Node) bool {
 				if a2, ok := m.(*ast.AssignStmt); ok && len(a2.Lhs) == 1 && len(a2.Rhs) == 1 {
 					if se, ok := unparen(a2.Lhs[0]).(*ast.SelectorExpr); ok && se.Sel.Name == "Mask" && identObj(info, a2.Rhs[0]) == res && res != nil {
 						isMask = true
@@ -259,7 +271,7 @@ func runC17(w *World, r *Report) {
 		} else {
 			// accepted idioms: t := And(value, mask); value.Cmp(t) != 0 → error   |   AndNot(value, mask).Sign()/BitLen() != 0 → error
 			found := false
-			ast.Inspect(nb.Decl.Body, func(n ast.Node) bool {
+			inspectParts(func(n ast.Node) bool {
 				is, ok := n.(*ast.IfStmt)
 				if !ok {
 					return true
@@ -294,7 +306,7 @@ func runC17(w *World, r *Report) {
 				bigOp = func(e ast.Expr, op string) bool {
 					if o := identObj(info, e); o != nil {
 						ok2 := false
-						ast.Inspect(nb.Decl.Body, func(m ast.Node) bool {
+						inspectParts(func(m ast.Node) bool {
 							if a2, ok := m.(*ast.AssignStmt); ok && len(a2.Lhs) == 1 && len(a2.Rhs) == 1 && identObj(info, a2.Lhs[0]) == o && a2.Pos() < is.Pos() {
 								if bigOp(a2.Rhs[0], op) {
 									ok2 = true
@@ -346,7 +358,7 @@ func runC17(w *World, r *Report) {
 	}
 	// (a) every return: exactly one of (value, error) is nil
 	nRet := 0
-	ast.Inspect(nb.Decl.Body, func(n ast.Node) bool {
+	inspectParts(func(n ast.Node) bool {
 		if _, ok := n.(*ast.FuncLit); ok {
 			return false
 		}
@@ -355,6 +367,14 @@ func runC17(w *World, r *Report) {
 			return true
 		}
 		nRet++
+		if len(rs.Results) == 1 {
+			if c, ok := unparen(rs.Results[0]).(*ast.CallExpr); ok {
+				if fnc, _ := typeutil.Callee(info, c).(*types.Func); fnc != nil && isPart[fnc.Origin()] {
+					r.OK("errprop", nb.Key, fmt.Sprintf("return#%d", nRet), w.Pos(rs.Pos()), "delegates to "+fnc.Name()+", whose returns are checked as part of the builder", false)
+					return true
+				}
+			}
+		}
 		if len(rs.Results) != 2 {
 			r.Fail(VUndecided, "errprop", nb.Key, fmt.Sprintf("return#%d", nRet), w.Pos(rs.Pos()), "return without explicit (value, error) results")
 			return true
@@ -455,9 +475,55 @@ func runC17(w *World, r *Report) {
 			}
 		}
 	}
-	checkBlock(nb.Decl.Body.List)
+	for _, p := range parts {
+		checkBlock(p.Decl.Body.List)
+	}
 	r.Stats["fallible_calls_in_builder"] = nFallible
 	r.Stats["returns_in_builder"] = nRet
+}
+
+// builderParts: fi and, transitively, the same-package functions it returns the results of directly.
+func builderParts(w *World, fi *FuncInfo) []*FuncInfo {
+	parts := []*FuncInfo{fi}
+	seen := map[*FuncInfo]bool{fi: true}
+	for i := 0; i < len(parts); i++ {
+		p := parts[i]
+		info := p.Pkg.TypesInfo
+		ast.Inspect(p.Decl.Body, func(n ast.Node) bool {
+			if _, ok := n.(*ast.FuncLit); ok {
+				return false
+			}
+			rs, ok := n.(*ast.ReturnStmt)
+			if !ok || len(rs.Results) != 1 {
+				return true
+			}
+			c, ok := unparen(rs.Results[0]).(*ast.CallExpr)
+			if !ok {
+				return true
+			}
+			fnc, _ := typeutil.Callee(info, c).(*types.Func)
+			if fnc == nil {
+				return true
+			}
+			g := w.FuncOf(fnc.Origin())
+			if g == nil || seen[g] || g.Pkg != fi.Pkg || g.Decl.Body == nil {
+				return true
+			}
+			a, b := fnc.Origin().Type().(*types.Signature).Results(), fi.Obj.Type().(*types.Signature).Results()
+			if a.Len() != b.Len() {
+				return true
+			}
+			for k := 0; k < a.Len(); k++ {
+				if !types.Identical(a.At(k).Type(), b.At(k).Type()) {
+					return true
+				}
+			}
+			seen[g] = true
+			parts = append(parts, g)
+			return true
+		})
+	}
+	return parts
 }
 
 // convFormRule: in the converter that turns the builder's value argument into a big integer, every value
